@@ -42,6 +42,19 @@
 (*      v2, G undefined => no claim beyond the accounting (delivered to the *)
 (*      layer or decomposed).  A press arriving exactly T ticks after the    *)
 (*      first (v2) is the documented boundary and makes the group soft.     *)
+(* Conventions of the soft zone (corrections made while triaging traces of  *)
+(* the unchanged code, see the final report of the check):                  *)
+(*  - "a participant was released" = a release input of that key since the   *)
+(*    chord's first press arrived (also when the key was pressed again);     *)
+(*  - the release deadline counts consecutive silent ticks (a release queued  *)
+(*    behind other events is not late while outputs keep coming) and waits    *)
+(*    while a participant key is physically down;                             *)
+(*  - a chord re-activated while its output key is still down cannot be seen  *)
+(*    at the OS level: presses that may have been consumed that way (`hid`)   *)
+(*    are not claimed; with a key+unicode action the character shows it;      *)
+(*  - failure messages carry a [site] suffix where the observation matches    *)
+(*    one of the recorded defects of chord.rs (known_findings.json), so that   *)
+(*    any other failure of the same rule is still reported as a violation.     *)
 (***************************************************************************)
 EXTENDS Obs
 
@@ -80,8 +93,10 @@ Decomp(p, g) ==
 
 MonInit(p) ==
   [p |-> p,
-   pend |-> <<>>,     \* presses not yet accounted for, in arrival order: [c, xr, ly, sk, age, hid]
-                      \*   xr = keys released (input) since this press arrived; hid = chord that may have consumed it unseen
+   pend |-> <<>>,     \* presses not yet accounted for, in arrival order: [c, xr, ly, sk, age, hid, dup]
+                      \*   xr = keys released (input) since this press arrived; ly = layer it was made on (-1 unknown);
+                      \*   sk = a later press was delivered before it; hid = chord that may have consumed it unseen;
+                      \*   dup = it was pending when a chord of its key fired (the site of a known dropped press)
    acts |-> <<>>,     \* chord actions currently held: [ci, rem, all, chk, due, tag, useen, frl]
    gst |-> "none",    \* sharp group: "none" | "open"
    g |-> <<>>,        \* its presses in arrival order
@@ -91,12 +106,12 @@ MonInit(p) ==
    exp |-> <<>>,      \* expected activations of the resolved group, in order
    expLeft |-> 0 - 1, \* ticks left for the first of them (-1: no claim)
    expDef |-> FALSE,  \* the expectation is the whole set's own action
-   last |-> [ci |-> 0, viaRel |-> FALSE, late |-> FALSE],   \* (= NoLast) the latest chord activation (to classify a repeat)
+   last |-> [ci |-> 0, viaRel |-> FALSE, late |-> FALSE, age |-> 0],   \* (= NoLast) the latest chord activation (to classify a repeat)
    sp |-> IF p.ver = 1 THEN 0 ELSE MaxT(p) + p.minidle + 2,     \* v2: ticks since the last press input (capped)
    phys |-> {},       \* keys physically down (from the inputs)
    lay |-> 0, lheld |-> FALSE,
    gapIn |-> 0, lastIdle |-> TRUE, cbRun |-> 2, quiet |-> p.red + 1, err |-> ""]
-NoLast == [ci |-> 0, viaRel |-> FALSE, late |-> FALSE]
+NoLast == [ci |-> 0, viaRel |-> FALSE, late |-> FALSE, age |-> 0]
 
 SpCap(p) == IF p.ver = 1 THEN 0 ELSE MaxT(p) + p.minidle + 2
 Settled(m) ==
@@ -182,7 +197,7 @@ ActivateChord(m, ci) ==
      THEN Fail(m, "C09 H5: chord fired from presses made on a layer it is disabled on")
      ELSE IF ~ExpOk(m, ch.o, ch.u)
      THEN Fail(m, "C09 H1/H2: wrong outcome for the pressed key set (another chord than the one defined for the set)")
-     ELSE LET m1 == PopExp([m EXCEPT !.pend = pend1, !.last = [ci |-> ci, viaRel |-> viaRel, late |-> late]]) IN
+     ELSE LET m1 == PopExp([m EXCEPT !.pend = pend1, !.last = [ci |-> ci, viaRel |-> viaRel, late |-> late, age |-> 0]]) IN
           IF ch.o = 0 THEN m1
           ELSE [m1 EXCEPT !.acts = Append(@, [ci |-> ci, rem |-> rem, all |-> S,
                                              chk |-> (p.ver = 2 \/ (fromExp /\ m.expDef)), due |-> 0, tag |-> FALSE,
@@ -193,8 +208,10 @@ ActivateChord(m, ci) ==
 UniOfKeyChord(m, ci) ==
   LET j == FirstIdx(m.acts, LAMBDA a : a.ci = ci /\ ~a.useen)
       S == KS(m.p.chords[ci])
+      \* the second of the two activations of the known double-activation sites is read one tick after the first
+      dbl == m.last.ci = ci /\ m.last.age <= 1 /\ (m.last.viaRel \/ m.last.late)
   IN IF j # 0 THEN [m EXCEPT !.acts[j].useen = TRUE]
-     ELSE IF \A k \in S : PickIdx(m.pend, k) # 0
+     ELSE IF ~dbl /\ \A k \in S : PickIdx(m.pend, k) # 0
      THEN \* a further activation for fresh presses while the key is still down
           LET I == {PickIdx(m.pend, k) : k \in S}
               oldest == CHOOSE i \in I : \A i2 \in I : i <= i2
@@ -202,7 +219,7 @@ UniOfKeyChord(m, ci) ==
               keep == SelectSeq([i \in DOMAIN m.pend |-> [e |-> m.pend[i], i |-> i]], LAMBDA x : x.i \notin I)
               a0 == FirstIdx(m.acts, LAMBDA a : a.ci = ci)
               m1 == [m EXCEPT !.pend = [i \in DOMAIN keep |-> keep[i].e],
-                              !.last = [ci |-> ci, viaRel |-> xr0 # {}, late |-> \E i \in I : m.pend[i].age >= m.p.chords[ci].T]]
+                              !.last = [ci |-> ci, viaRel |-> xr0 # {}, late |-> \E i \in I : m.pend[i].age >= m.p.chords[ci].T, age |-> 0]]
           IN IF a0 = 0 THEN m1 ELSE [m1 EXCEPT !.acts[a0].rem = S \ xr0, !.acts[a0].due = 0]
      ELSE IF m.last.ci = ci /\ m.last.viaRel
      THEN Fail(m, "C09 H1: chord action performed twice for one set of presses [a participant was released before the chord fired]")
@@ -293,15 +310,23 @@ MonTick(m, out, idle, cb) ==
         hidIdx == IF p.ver = 1 THEN [i \in {} |-> 0]
                   ELSE [i \in UNION {hidFor(m3a, m3a.acts[j]) : j \in DOMAIN m3a.acts} |->
                           LET J == {j \in DOMAIN m3a.acts : i \in hidFor(m3a, m3a.acts[j])} IN m3a.acts[CHOOSE j \in J : TRUE].ci]
-        m3 == IF m3a.err # "" THEN m3a
-              ELSE [m3a EXCEPT !.pend = [i \in DOMAIN @ |-> IF i \in DOMAIN hidIdx THEN [@[i] EXCEPT !.hid = hidIdx[i]] ELSE @[i]]]
+        hidKeys == UNION {m3a.acts[j].all : j \in {j2 \in DOMAIN m3a.acts : hidFor(m3a, m3a.acts[j2]) # {}}}
+        m3 == IF m3a.err # "" \/ p.ver = 1 THEN m3a
+              ELSE [m3a EXCEPT !.pend = [i \in DOMAIN @ |->
+                                           IF i \in DOMAIN hidIdx THEN [@[i] EXCEPT !.hid = hidIdx[i]]
+                                           \* a further press of a key of that chord, pending at the same time, would be
+                                           \* dropped by such an activation (the known site `dup`)
+                                           ELSE IF @[i].c \in hidKeys THEN [@[i] EXCEPT !.dup = TRUE] ELSE @[i]]]
         \* ---- 3. deadlines
         settledNow == idle /\ m.lastIdle /\ m.gapIn = 0
         \* (a press of an undefined single-key chord is consumed silently, so `rem` may be attributed to an older press
         \*  of the key: the deadline also waits until no participant is physically down)
         relCond(a) == /\ IF p.chords[a.ci].first THEN a.rem # a.all ELSE a.rem = {} /\ a.all \cap m.phys = {}
                       /\ ~\E i \in DOMAIN m3.pend : m3.pend[i].hid = a.ci
-        acts1 == [i \in DOMAIN m3.acts |-> [m3.acts[i] EXCEPT !.due = IF relCond(m3.acts[i]) THEN OMin(@ + 1, p.slack + 1) ELSE 0]]
+        \* the deadline counts consecutive silent ticks: while kanata still works through queued events (one per tick,
+        \* with rapid-event pauses) outputs keep coming and the release is merely queued behind them
+        acts1 == [i \in DOMAIN m3.acts |-> [m3.acts[i] EXCEPT !.due = IF relCond(m3.acts[i]) /\ out = <<>>
+                                                                       THEN OMin(@ + 1, p.slack + 1) ELSE 0]]
         stuck == {i \in DOMAIN acts1 : acts1[i].due > p.slack}
         \* presses left when kanata has settled, per key: every `hid` mark excuses one press of the key silently (a chord
         \* re-activation under a held output key is invisible), every `dup` mark names the known site of a dropped press
@@ -326,7 +351,7 @@ MonTick(m, out, idle, cb) ==
     IN IF m4.err # "" THEN m4
        ELSE [m4 EXCEPT !.lay = IF settledNow THEN (IF m.lheld THEN 1 ELSE 0) ELSE @,
                        !.sp = OMin(@ + 1, SpCap(p)),
-                       !.last = IF settledNow THEN NoLast ELSE @,
+                       !.last = IF settledNow THEN NoLast ELSE [@ EXCEPT !.age = OMin(@ + 1, 2)],
                        !.expDef = IF m4.exp = <<>> THEN FALSE ELSE @,
                        !.gapIn = 0, !.lastIdle = idle, !.cbRun = IF p.ver = 1 \/ cb THEN OMin(@ + 1, 2) ELSE 0,
                        !.quiet = IF out = <<>> THEN OMin(m4.quiet + 1, p.red + 1) ELSE 0]
